@@ -478,3 +478,92 @@ def replay(rep):  # noqa: F811
         print('replay: %s' % ('not reproduced' if ok and 'PANIC' not in so else 'violation reproduced on the real code'))
         return 0 if ok else 1
     return _rp3(rep)
+
+
+# ---------------------------------------------------------------------------
+# Date arithmetic (C14): round trips, differences across zones, offset conversions
+_D0 = '#2020-01-01 00:00:00#'
+_DATE_CASES = []
+for _t, _ns in [('500 ns', 500), ('(-250 ns)', -250), ('1.5 ms', 1500000), ('(-1500 us)', -1500000), ('1 s', 10**9), ('(-86400.000000001 s)', -86400000000001),
+                ('(10000000000 s + 500 ns)', 10**19 + 500), ('0.000000001 s', 1), ('(-0.0015 s)', -1500000), ('90061.5 s', 90061500000000)]:
+    _DATE_CASES.append(('((%s + %s) - %s) / (1 ns)' % (_D0, _t, _D0), 'RAW %d/1 | ' % _ns))
+    _DATE_CASES.append(('(((%s - %s) + %s) - %s) / (1 ns)' % (_D0, _t, _t, _D0), 'RAW 0/1 | '))
+_DATE_CASES += [
+    ('(#2020-01-01 12:00:00 US/Pacific# - #2020-01-01 00:00:00 +00:00#) / (1 s)', 'RAW 72000/1 | '),
+    ('(#2020-01-01 00:00:00 +00:00# - #2020-01-01 12:00:00 US/Pacific#) / (1 s)', 'RAW -72000/1 | '),
+    ('(#2020-01-01 12:00:00 US/Pacific# - #2020-01-01 12:00:00 -08:00#) / (1 s)', 'RAW 0/1 | '),
+    ('((#2020-01-01 12:00:00 US/Pacific# + 90 s) - #2020-01-01 12:00:00 -08:00#) / (1 s)', 'RAW 90/1 | '),
+    ('(#2020-07-01 12:00:00 US/Pacific# - #2020-07-01 19:00:00 +00:00#) / (1 s)', 'RAW 0/1 | '),
+    ('#2020-07-01 12:00:00 US/Pacific# -> +00:00', '2020-07-01 19:00:00 +00:00'),
+    ('#2020-07-01 12:00:00 US/Pacific# -> GMT', '2020-07-01 19:00:00 GMT'),
+    ('#2020-01-01 00:00:00# -> +05:30', '2020-01-01 05:30:00 +05:30'),
+    ('#2020-01-01 00:00:00# -> -23:59', '2019-12-31 00:01:00 -23:59'),
+    ('#2020-01-01 00:00:00# -> +25:00', 'ERR'),
+    ('#2020-01-01 00:00:00# -> -24:00', 'ERR'),
+    ('#2020-01-01 00:00:00# -> +99:99', 'ERR'),
+]
+
+
+def _dates_witness():
+    if build_core() != 0:
+        return None
+    for q, want in _DATE_CASES:
+        (ln, text, raw) = run_queries([q])[0]
+        if want.startswith('RAW '):
+            ok = raw is not None and _norm_raw(raw) == _norm_raw(want[4:])
+        elif want == 'ERR':
+            ok = text.startswith('ERR')
+        else:
+            ok = text.splitlines()[0].startswith(want) if text else False
+        if text.startswith('PANIC') or text.startswith('TIMEOUT'):
+            ok = False
+        if not ok:
+            return {'replayer': 'dates', 'input': {'query': q, 'expected': want}, 'output': text, 'why': 'expected %r, got %r' % (want, (text.splitlines() or [''])[0] + (' / RAW ' + raw if raw else '')),
+                    'cmd': '%s %r' % (QUERY_BIN, q)}
+    return None
+
+
+_sf3 = search_family
+
+
+def search_family(fam, prop):  # noqa: F811
+    if fam == 'dates':
+        return _dates_witness()
+    return _sf3(fam, prop)
+
+
+_fw4 = find_witness
+
+
+def find_witness(o, rep):  # noqa: F811
+    slot = o.get('slot') or ''
+    if slot.startswith('datetime::') or slot.startswith('GenericDateTime') or slot in ('Value::add', 'Value::sub') or slot.startswith('eval_query::offset') or slot.startswith('parse_offset'):
+        w = _dates_witness()
+        if w:
+            return w
+    return _fw4(o, rep)
+
+
+_rp4 = replay
+
+
+def replay(rep):  # noqa: F811
+    w = rep.get('replay') or {}
+    if w.get('replayer') == 'dates':
+        if build_core() != 0:
+            return 0
+        i = rep['input']
+        (ln, text, raw) = run_queries([i['query']])[0]
+        print('> ' + i['query'])
+        print(text)
+        want = i['expected']
+        if want.startswith('RAW '):
+            ok = raw is not None and _norm_raw(raw) == _norm_raw(want[4:])
+        elif want == 'ERR':
+            ok = text.startswith('ERR')
+        else:
+            ok = text.splitlines()[0].startswith(want) if text else False
+        print('expected: %r' % want)
+        print('replay: %s' % ('not reproduced' if ok else 'violation reproduced on the real code'))
+        return 0 if ok else 1
+    return _rp4(rep)
